@@ -430,6 +430,14 @@ par_run(long nitems, int W, item_fn f, crash_fn cf, void *arg, int tmo)
         pid_t *pid = calloc((size_t) W, sizeof *pid);
         char *retry = calloc((size_t) W, 1); /* slot is re-running one timed-out item alone with a longer limit */
         int live = 0;
+        /* quick-tier items are short: a third of the driver's limit (at least 120 s) is ample; once a hang is CONFIRMED (the item
+         * timed out again when re-run with four times the limit) the run has failed anyway and only needs to end: later items
+         * get 60 s, are not re-run, and after 6 more expiries the remaining items are skipped (exhaustive: false) */
+        if (!tier_thorough() && tmo > 360)
+                tmo = tmo / 3;
+        if (getenv("VERIF_WATCHDOG") && atoi(getenv("VERIF_WATCHDOG")) > 0) /* manual runs against a tree known to hang */
+                tmo = atoi(getenv("VERIF_WATCHDOG"));
+        int confirmed_hangs = 0, fast_expiries = 0;
         long long skipped0 = S->skipped;
         fflush(stdout);
         fflush(stderr);
@@ -464,7 +472,11 @@ par_run(long nitems, int W, item_fn f, crash_fn cf, void *arg, int tmo)
                                 continue; /* the slot ran its stripe to the end */
                 } else {
                         int sig = WIFSIGNALED(st) ? WTERMSIG(st) : -WEXITSTATUS(st);
-                        if (sig == SIGALRM && !was_retry) {
+                        if (sig == SIGALRM && was_retry)
+                                confirmed_hangs++;
+                        else if (sig == SIGALRM && confirmed_hangs)
+                                fast_expiries++;
+                        if (sig == SIGALRM && !was_retry && !confirmed_hangs) {
                                 /* a watchdog expiry under load is not yet a hang: the (deterministic) item is re-run with
                                  * four times the limit before it is reported */
                                 stat_add("items_rerun_after_watchdog", 1);
@@ -477,7 +489,12 @@ par_run(long nitems, int W, item_fn f, crash_fn cf, void *arg, int tmo)
                                 cf(i, sig, arg);
                 }
                 if (i + W < nitems) {
-                        pid[w] = spawn_worker(w, W, i + W, nitems, cur, f, arg, tmo, 0);
+                        if (fast_expiries >= 6) {
+                                stat_add("items_skipped_after_confirmed_hangs", (nitems - 1 - i) / W);
+                                S->skipped += (nitems - 1 - i) / W;
+                                continue;
+                        }
+                        pid[w] = spawn_worker(w, W, i + W, nitems, cur, f, arg, confirmed_hangs ? 60 : tmo, 0);
                         live++;
                 }
         }
